@@ -445,7 +445,11 @@ class PipelineCheck(Check):
             "EnergyReader + SQRA.get_rate_matrix + cut_and_merge(None,None) + save_npz), D (load_npz + "
             "DecompositionTool under seeded ARPACK start vectors), each warm or cold (fresh interpreter, own "
             "PYTHONHASHSEED), with faults: crash at any step boundary + re-run from scratch, torn / lost write of the "
-            "file in flight, stale directory of another grid, global-RNG perturbation between stages. Swarm over "
+            "file in flight, stale directory of another grid, global-RNG perturbation between stages; the stages run inside "
+            "a molgri project directory and in a quarter of the runs the stages of a second experiment of the same project "
+            "are interleaved; the SqRA stage may scan T/D on the loaded geometry first. Energies: normal, wide below the "
+            "cap, radial ramps over up to 15 shells, whole-number columns, duplicate lines, several line layouts, down to "
+            "cryogenic temperatures. Swarm over "
             "rotation/direction algorithms, sizes, radial text forms, both position modes, factor, T, D, energy spread, "
             "solver settings. Non-trivial: pipeline completed, all oracles evaluated, and >=1 fault fired or >=1 cold "
             "stage. Distinct = distinct hash of (spec sizes/algorithms/mode, stage schedule with modes and fault kinds, "
@@ -1016,7 +1020,8 @@ class PersistenceCheck(Check):
             "(0-13 '#' lines, '@' lines to reach >=13 header lines, 1-10 legends with awkward texts, 1-200 rows in "
             "several number formats), EnergyReader (warm or cold) must return one row per data line in order, columns "
             "Time + legends, values == float(token), the single column, and a csv round trip (to_csv -> EnergyReader) "
-            "must be identical. Non-trivial: an overwrite, crash or cold reader was involved, or >=2 legends with >=2 "
+            "must be identical; objects a reader loaded earlier are digested again at the end of the run, after later "
+            "writes. Non-trivial: an overwrite, crash or cold reader was involved, or >=2 legends with >=2 "
             "rows. Distinct = distinct hash of the scenario shape. Candidly: most of this is a seeded round trip; the "
             "simulator contributes process separation, overwrite/crash histories and the fake peer.")
     components = {"real": ["molgri.io.GridWriter/GridReader/EnergyReader", "numpy/scipy.sparse persistence, pandas",
